@@ -35,7 +35,10 @@ CFG = {
             "corner patterns incl. the bit-23 sign boundary and the bit-22 boundary, half-float patterns (all 65536 "
             "in the thorough tier), 0/1/many points, invalid headers) gzip-ed by compress/gzip into "
             "spz.Read; truncated/trailing/hostile-count SPZ streams; splat clouds with subsets of the 62 SplatPly "
-            "properties through ply.SplatPly.Write + ply.ReadMesh; distinct by input; non-trivial = at least one splat",
+            "properties through ply.SplatPly.Write + ply.ReadMesh; large synthetic clouds (4095, 4096, 4097, 8193, 9000, 65537 points: around powers of two and block "
+            "sizes) through every codec (.splat write+read, SPZ every version x degree, SplatPly write+ReadMesh), records "
+            "derived from (n, seed) on both sides, compared by count and order-sensitive 63-bit fingerprints of per-field "
+            "codes; distinct by input; non-trivial = at least one splat",
     "trusted": ["math.Exp/math.Log/sigmoid are float functions: the scale word and the opacity byte's pre-image are "
                 "computed by Go and passed to the model; scale and opacity round trips are tolerance checks in the "
                 "harness (2^-23 absolute on the log-scale, 1/255 in the sigmoid domain)",
